@@ -6,6 +6,11 @@ Models: `Model/Schema/Parse.lean` is `parser/grammar.pest` as the PEG pest execu
 formatter on every run (canonical AST dump and formatted text of generated and damaged sources).
 
 Proved here, for all inputs:
+* `parse_format_parse` — the property for the models with nothing assumed: for EVERY source text the grammar accepts,
+  the formatted text of its schema is accepted again, with the parser's own fuel, as the same schema in canonical
+  form, and formatting that result gives the same text again. It rests on the three theorems below and on
+  `formatted_text_carries_its_fuel` (the nesting budget of the parser model, input length + 2, always suffices for
+  text the formatter wrote);
 * `formatting_a_parsed_schema` — the property for the models with no premise on the schema: for EVERY source text the
   grammar accepts, the formatted text of its AST reads back as the canonical form of that AST and formatting that
   again changes nothing. It combines `parsed_schemas_are_well_formed` (every AST the parser model returns is
@@ -30,9 +35,9 @@ Proved here, for all inputs:
 * `comment_line_roundtrip`, `doc_line_roundtrip`, `inline_doc_line_roundtrip` — a written comment / doc line is
   read back as one line of the same kind (never as another kind), and `line_inner_stable`: its inner text is
   the one that was written, so writing it again gives the same line (idempotence of line formatting).
-Not theorems (tied by the correspondence runs and the implementation-only oracles): that the fuel `parseSchema`
-uses (input length + 2) is at least `schemaFuel` of what it returns (fuel only bounds the nesting the model follows;
-evaluated on every input by the `sval` lines); the validator (equal errors and warnings).
+Not theorems (tied by the correspondence runs and the implementation-only oracles): that models and code agree (AST
+dumps and formatted text on generated and damaged sources; the `sval` lines re-evaluate premises and conclusion of
+the theorems on every parsed input); the validator (equal errors and warnings).
 -/
 import Aldrin.Lemmas.Schema.Types
 import Aldrin.Lemmas.Schema.Lines
@@ -40,6 +45,7 @@ import Aldrin.Lemmas.Schema.Schema
 import Aldrin.Lemmas.Schema.ValidSound
 import Aldrin.Lemmas.Schema.Idem
 import Aldrin.Lemmas.Schema.ParseValid
+import Aldrin.Lemmas.Schema.FuelBound
 
 namespace Aldrin.Schema
 
@@ -61,6 +67,22 @@ formatting what was read back changes nothing. -/
 theorem formatting_a_parsed_schema (src : Str) (s : Schema) (h : parseSchema src = some s) :
     fileP (schemaFuel s) (format s) = some (canonSchema s) ∧ format (canonSchema s) = format s :=
   ⟨fileP_format s (parseSchema_valid h) _ (Nat.le_refl _), format_canon s⟩
+
+/-- The fuel `parseSchema` takes for a text (its length + 2) is enough for the schema the text was written for:
+every unit of `schemaFuel` stands for something the formatter writes at least one character for. -/
+theorem formatted_text_carries_its_fuel (s : Schema) (hv : ValidSchema s) : schemaFuel s ≤ (format s).length + 2 :=
+  schemaFuel_le_format s hv
+
+/-- C18 for the models, with nothing assumed: whatever source text the grammar accepts, formatting its schema
+yields text that the grammar accepts again - with the parser's own fuel - as the same schema in canonical form
+(same definitions in the same order, names, ids, types, attributes, comments, docs; imports sorted), and formatting
+that result again gives the same text. -/
+theorem parse_format_parse (src : Str) (s : Schema) (h : parseSchema src = some s) :
+    parseSchema (format s) = some (canonSchema s) ∧ (parseSchema (format s)).map format = some (format s) := by
+  have hv := parseSchema_valid h
+  have hp : parseSchema (format s) = some (canonSchema s) :=
+    fileP_format s hv _ (schemaFuel_le_format s hv)
+  exact ⟨hp, by rw [hp, Option.map_some, format_canon]⟩
 
 /-- The same with the executable well-formedness check (`Model/Schema/Valid.lean`), which the driver evaluates on
 every AST the model parser produces in the correspondence runs. -/
